@@ -189,6 +189,8 @@ def teardown(ctx):
 
 # -- workload --------------------------------------------------------------------------------------------------------------------
 def gen(rng, tier, shard, nshards):
+    if shard == 0:
+        yield {'kind': 'ambient-suite'}
     n = 80 if tier == 'quick' else 750
     forced = [dict(pdim=2, maxdeg=1, rational=False), dict(pdim=1, maxdeg=1), dict(pdim=2, rational=True),
               dict(pdim=1, kvcls='unclamped'), dict(pdim=2, normalize=False, lohi=(2.0, 5.0)), dict(pdim=1, kvcls='fullmult', mindeg=2)]
@@ -207,6 +209,10 @@ def gen(rng, tier, shard, nshards):
 
 
 def check(case, ctx):
+    if case.get('kind') == 'ambient-suite':
+        from .. import ambient
+        ctx.nontriv(True)
+        return ambient.run_repo_suite(ctx, None)
     from geomdl import operations, evaluators, linalg
     sd = case['sd']
     rng = random.Random(case['seed'])
